@@ -16,6 +16,26 @@ SPECS = [
          ],
          raises={'*': {'ensures': ["raised('e5') or raised('e6') or raised('h1') or raised('h2')"]}},
          serves=['C01', 'C04'], no_fresh=True),
+    dict(id='S-Case-Condition',
+         # a case element that also carries a guard: the case expression decides whether the
+         # element is the selected one, the guard whether the selected element is rendered
+         text='A<s tal:switch="e5"><i tal:case="e6" tal:condition="e3">%s</i><j tal:case="e2">%s</j></s>B'
+              % (H1, H2),
+         ensures=[
+             "evals(5) == 1",
+             "evals(6) == 1",
+             # selected <=> the case value equals the switch value (or is `default`)
+             "(evals(3) == 1) == bool(val(6) == val(5) or val(6) == DEFAULT())",
+             "evals(3) == 0 or holes(1) == (1 if bool(val(3)) else 0)",
+             # once a case has been selected no later case is looked at (here: the same expression
+             # a second time), and the second element is rendered only if the first was not selected
+             "evals(3) == 0 or (evals(2) == 0 and holes(2) == 0)",
+             "evals(3) == 1 or evals(2) == 1",
+             "evals(3) == 1 or holes(1) == 0",
+         ],
+         raises={'*': {'ensures': ["raised('e5') or raised('e6') or raised('e3') or raised('e2') or "
+                                   "raised('h1') or raised('h2')"]}},
+         serves=['C01', 'C04'], no_fresh=True),
     dict(id='S-Comment-noninterp', text='A<!--?<b>${e1}</b>-->B',
          ensures=["evals(1) == 0",
                   # <!--? switches interpolation off for this comment; the text is emitted as
